@@ -34,9 +34,24 @@ def seeded_table():
                     "fails" if cb.get("demo_exit_with_change") not in (0, None) else "passes", chs, status))
     return "\n".join(rows)
 
+def benign_table():
+    rows = ["| behaviour-preserving change | what changes below the property (site) | repo tests with change | checks run (all must stay silent) | alarms | note |",
+            "|------------------------------|----------------------------------------|------------------------|-----------------------------------|--------|------|"]
+    for d in sorted(glob.glob(os.path.join(ROOT, "benign", "C*-*"))):
+        mf = os.path.join(d, "meta.json")
+        if not os.path.exists(mf):
+            continue
+        m = json.load(open(mf)); cb = m.get("confirmed_by_me", {}); ch = m.get("checks", {})
+        what = str(m.get("what_changes_internally", m.get("title", "")))[:220].replace("|", "/").replace("\n", " ")
+        files = ",".join(os.path.basename(x) for x in m.get("files", []))[:40]
+        bad = ["%s exit %s `%s`" % (k, v.get("exit"), (v.get("keys") or [""])[0][:60]) for k, v in ch.items() if v.get("exit") != 0]
+        rows.append("| %s | %s (%s) | %s | %d | %s | %s |" % (os.path.basename(d), what, files,
+                    "pass" if cb.get("repo_tests_exit_with_change") == 0 else "FAIL", len(ch), "; ".join(bad) if bad else "none", m.get("status_note", "")))
+    return "\n".join(rows)
+
 def main():
     p = os.path.join(ROOT, "DESIGN.md"); s = open(p).read()
-    for name, fn in (("evidence", evidence_table), ("seeded", seeded_table)):
+    for name, fn in (("evidence", evidence_table), ("seeded", seeded_table), ("benign", benign_table)):
         b, e = f"<!-- BEGIN:{name} -->", f"<!-- END:{name} -->"
         if b in s and e in s:
             s = s[:s.index(b) + len(b)] + "\n" + fn() + "\n" + s[s.index(e):]
